@@ -225,6 +225,16 @@ def percentile(a, q, method="linear", internal_method="default", **kwargs):
             hundred[:] = 100
 
             calc_q = np.concatenate((zero, q, hundred))
+            # The kernels interpolate in the precision of ``q`` (a float32
+            # input comes back as float64) and the non-interpolating methods
+            # keep an integer input's dtype: advertise what a block actually
+            # produces rather than a rule of thumb
+            try:
+                sample = np.ones_like(meta_from_array(a), shape=(1,))
+                merged = merge_percentiles(q, [calc_q], [percentile_lookup(sample, calc_q, method)], method)
+                meta = meta_from_array(a, dtype=merged.dtype)
+            except Exception:
+                pass
             name = "percentile_chunk-" + token
             dsk = {(name, i): (percentile_lookup, key, calc_q, method) for i, key in enumerate(a.__dask_keys__())}
 
